@@ -8,6 +8,9 @@ pub struct GC {
 
     /// All marked objects during a run.
     mark_bitmap: bv::BitVec,
+
+    /// Addresses of the arrays not managed by this collector that were already visited during a run.
+    unmanaged_arrays: Vec<usize>,
 }
 
 impl GC {
@@ -16,12 +19,19 @@ impl GC {
         Self {
             objects: Vec::new(),
             mark_bitmap: bv::BitVec::new(),
+            unmanaged_arrays: Vec::new(),
         }
     }
 
     #[inline]
     pub fn maybe_trace(&mut self, o: Object) {
-        if o.is_heap_allocated() {
+        // Objects can be offered more than once (the constants of a retained compiler are)
+        if o.is_heap_allocated()
+            && !self
+                .objects
+                .iter()
+                .any(|a| std::ptr::eq(a.as_ptr(), o.as_ptr()))
+        {
             self.objects.push(o);
             self.mark_bitmap.reserve(1);
         }
@@ -86,6 +96,7 @@ impl GC {
         self.objects.sort_unstable_by_key(|o| o.as_ptr() as usize);
         self.mark_bitmap.clear();
         self.mark_bitmap.resize(self.objects.len(), false);
+        self.unmanaged_arrays.clear();
 
         // Mark all reachable objects
         for root in roots.iter() {
@@ -126,8 +137,18 @@ impl GC {
             .binary_search_by_key(&(o.as_ptr() as usize), |a| a.as_ptr() as usize)
         {
             Ok(index) => index,
-            // Not managed by this garbage collector
-            Err(_) => return,
+            // Not managed by this garbage collector (e.g. the result of an earlier run, which now
+            // belongs to the caller), but the values stored inside of it may be.
+            Err(_) => {
+                if o.tag() == Type::Array && !self.unmanaged_arrays.contains(&(o.as_ptr() as usize)) {
+                    self.unmanaged_arrays.push(o.as_ptr() as usize);
+                    // Safety: we already checked the type.
+                    for v in unsafe { o.as_vec_unchecked() } {
+                        self.mark(v);
+                    }
+                }
+                return;
+            }
         };
         debug_assert!(index < self.mark_bitmap.len());
         #[cfg(feature = "verif")]
